@@ -17,7 +17,7 @@ const rule = "exhaustive: files of n<=5 statements (distinct ids, and an all-equ
 	"API tier = migrate.Executor on MemDir with recording driver/revisions; CLI tier = atlas migrate apply --tx-mode none on a SQLite file. " +
 	"non-trivial = the edited file differs from the original in statements or layout; distinct key = (old, k, new, cosmetic, tier)"
 
-func key(c Case) string { return fmt.Sprintf("%v|%d|%d|%v|%d|%v|%v", c.Old, c.K, c.K2, c.New, c.Cosmetic, c.CLI, c.Quiet) + fmt.Sprint(c.NoHashes, c.OutOfOrder) }
+func key(c Case) string { return fmt.Sprintf("%v|%d|%d|%v|%d|%v|%v", c.Old, c.K, c.K2, c.New, c.Cosmetic, c.CLI, c.Quiet) + fmt.Sprint(c.NoHashes, c.OutOfOrder, c.Trigger, c.DryFirst) }
 
 func classify(col *ev.Collector, c Case) {
 	cls := "prefix-changed"
@@ -188,6 +188,12 @@ func TestCheck(t *testing.T) {
 		}
 		c.CLI = true
 		ok = ev.Each(col, "cli-exhaustive", c, check, known)
+		// every fourth case also with a trigger at the head of the file and a --dry-run before the real run
+		if ok && j%4 == 1 {
+			c2 := c
+			c2.Trigger, c2.DryFirst = true, true
+			ok = ev.Each(col, "cli-exhaustive-trigger-dry-run", c2, check, known)
+		}
 		// every third case also as an out-of-order file whose first attempt ran with --exec-order non-linear
 		if ok && j%3 == 0 {
 			c.OutOfOrder = 1 + j/3%2
@@ -201,6 +207,7 @@ func TestCheck(t *testing.T) {
 	ev.Rapid(t, col, "cli-random", col.N(25, 1500), func(t *rapid.T) Case {
 		c := genCase(t)
 		c.CLI, c.OutOfOrder = true, rapid.SampledFrom([]int{0, 0, 1, 2}).Draw(t, "outoforder")
+		c.Trigger, c.DryFirst = rapid.Bool().Draw(t, "trigger"), rapid.Bool().Draw(t, "dryfirst")
 		return c
 	}, check, known)
 }
